@@ -43,6 +43,10 @@ def run(ctx):
     from .. import identity
     identity.check(ctx, rep, "C12", "R12.9", ["id-eq", "id-hash", "id-ord", "id-clone", "hb-ord"])
     identity.check_keys(ctx, rep, "C12", "R12.10", ["fd-sets", "cluster", "digest"])
+    # removal "at the next evaluation" needs an evaluation at the end of EVERY round, whatever the sends returned (seed R3-C12-2)
+    from . import c19
+    c19.r19_8(ctx, rep, roles, c19.server_methods(fx))
+    ctx.report.rules[-1].id = "R12.11(R19.8)"
 
 
 def r12_1b(ctx, rep, roles):
@@ -123,6 +127,26 @@ def r12_2(ctx, rep, roles):
                            "remove_node is not fed from garbage_collect's result", where(nl.fn))
     rep.floor("update_node_liveness-sites", n_u, 1)
     rep.floor("remove_node-sites", n_r, 1)
+    # every OTHER member is evaluated: in the member loop the only reason not to evaluate an element is "it is the own id"
+    # (seed R3-C11-2 skipped members scheduled for deletion: they could never come back to life)
+    n_body = 0
+    gcid = nl.keep["garbage_collect"]
+    for row in nl.rows:
+        if row.exit != "backedge" or any(e[1] == gcid for e in row.calls()):
+            continue        # rows of the later phases
+        nxt = [c for c in row.cond if c[0] == "variant" and c[1][0] == "call" and c[1][1].endswith("::next") and c[2] == "Some" and c[3]]
+        if not nxt:
+            continue
+        n_body += 1
+        others = [c for c in row.cond if c not in nxt]
+        evaluated = bool(nl.calls(row, "update_node_liveness"))
+        elem = T.proj(T.proj(nxt[0][1], ("v", "Some")), ("f", "std::option::Option", "0")) if hasattr(T, "proj") else sym.proj(sym.proj(nxt[0][1], ("v", "Some")), ("f", "std::option::Option", "0"))
+        guard = nl.not_self_guard(row, elem)
+        ok = len(others) == 1 and guard is not None and guard == evaluated
+        rep.obligation(ok, "C12/R12.2/member-not-evaluated", "a member-loop path with conditions [%s] %s the element: the only admissible skip is the own id" % (
+            "; ".join(sym.fmt_cond(c)[:70] for c in others), "evaluates" if evaluated else "skips"), where(nl.fn, row.site[1]),
+            sample="member loop: evaluated <=> element != own id, no other condition")
+    rep.floor("member-loop-paths", n_body, 2)
     # the member loop ranges over cluster_state.nodes() / node_states keys
     src_ok = False
     for row in nl.rows:
